@@ -31,28 +31,28 @@ type Frame struct {
 }
 
 type Exec struct {
-	prog    *ssa.Program
-	ts      *TS
-	sess    *Session
-	ctl     *PathCtl
-	globals map[*ssa.Global]*Object
-	nextObj int
-	steps   int
-	depth   int
-	frames  []*Frame
-	h       *Harness
-	locks   map[string]*lockState
-	conc    *ConcState
-	nondets []Nondet
-	clock   *Term // last time.Now() value (non-decreasing)
-	nowCnt  int
-	funcs   map[string]bool
-	stubs   map[string]bool
-	ghost   map[string]Value
-	forkCnt map[ssa.Instruction]int
-	initDone map[*ssa.Package]bool
-	timers  []*timerState
-	classes []classPred
+	prog         *ssa.Program
+	ts           *TS
+	sess         *Session
+	ctl          *PathCtl
+	globals      map[*ssa.Global]*Object
+	nextObj      int
+	steps        int
+	depth        int
+	frames       []*Frame
+	h            *Harness
+	locks        map[string]*lockState
+	conc         *ConcState
+	nondets      []Nondet
+	clock        *Term // last time.Now() value (non-decreasing)
+	nowCnt       int
+	funcs        map[string]bool
+	stubs        map[string]bool
+	ghost        map[string]Value
+	forkCnt      map[ssa.Instruction]int
+	initDone     map[*ssa.Package]bool
+	timers       []*timerState
+	classes      []classPred
 	explicit     []int
 	choiceSeq    []int
 	explicitIn   []int
